@@ -454,6 +454,10 @@ func (abvt *accountBlockTransactionVerifier) descendantBlocks() error {
 		return ErrABDescendantMustBeZero
 	}
 	for _, dBlock := range block.DescendantBlocks {
+		// the hash of block covers only the hashes of its descendants
+		if dBlock.ComputeHash() != dBlock.Hash {
+			return DescendantVerifyError(ErrABHashInvalid)
+		}
 		if err := (&accountBlockVerifier{
 			block:         dBlock,
 			accountStore:  abvt.accountStore,
